@@ -2169,15 +2169,17 @@ fn start_case<T: Tgt>(out: &mut Out, r: &mut Rng, pool: &Pool, mk: impl Fn() -> 
     let case = format!("start {} mode={} src_hdr={} prev_hdr={} rcode={} limit={:?} questions={}", label, mode, hexraw(&sh), hexraw(&prev), rc, limit,
         qs.iter().map(|q| format!("{}/{}/{}", hexraw(&q.name), q.qt, q.qc)).collect::<Vec<_>>().join(","));
     out.begin(&case);
-    // the source query, with compressed names
+    // the source query; uncompressed, so that every name keeps its own ASCII case
+    // (a case-insensitive compressor would hand back the case of an earlier name,
+    // and the expectation below is computed from the names as generated)
     let src = {
-        let mut mb = match MessageBuilder::from_target(StaticCompressor::new(Vec::new())) { Ok(m) => m, Err(_) => return };
+        let mut mb = match MessageBuilder::from_target(Vec::<u8>::new()) { Ok(m) => m, Err(_) => return };
         set_header(mb.header_mut(), sh);
         let mut qb = mb.question();
         for q in &qs {
             let _ = qb.push((to_name(&q.name), Rtype::from_int(q.qt), Class::from_int(q.qc)));
         }
-        match Message::from_octets(qb.finish().into_target()) { Ok(m) => m, Err(_) => return }
+        match Message::from_octets(qb.finish()) { Ok(m) => m, Err(_) => return }
     };
     let mut b = match MessageBuilder::from_target(mk()) { Ok(m) => m, Err(_) => return };
     set_header(b.header_mut(), prev);
